@@ -164,6 +164,7 @@ func main() {
 		"Sites.lean":   genSites,
 		"Atomic.lean":  genAtomic,
 		"Fanout.lean":  genFanout,
+		"Plugins.lean": genPlugins,
 	}
 	names := make([]string, 0, len(gens))
 	for n := range gens {
